@@ -828,8 +828,8 @@ def known_c02(c, w):
 
 def streams_c02(ctx, scale, off):
     s1, c1 = solve_stream(ctx, ctx.seed + off, 260 * scale, rooms=0, scheds=2, max_c=5, max_p=7)
-    s2, c2 = node_stream(ctx, ctx.seed + off + 1, 150 * scale, rooms=0)
-    s3, c3 = tree_stream(ctx, ctx.seed + off + 2, 40 * scale, panics=0, dfs=100, max_nodes=10)
+    s2, c2 = node_stream(ctx, ctx.seed + off + 1, 250 * scale, rooms=0)
+    s3, c3 = tree_stream(ctx, ctx.seed + off + 2, 80 * scale, panics=0, dfs=100, max_nodes=10)
     cs = corpus_cases(ctx, "solve") if off == 0 else []
     return [s1, s2, s3], cs + c1 + c2 + c3
 
@@ -900,7 +900,7 @@ def spec_c03(c):
 
 def streams_c03(ctx, scale, off):
     s1, c1 = solve_stream(ctx, ctx.seed + off, 150 * scale, rooms=2, scheds=5, max_c=5, max_p=8, brute=1)
-    s2, c2 = tree_stream(ctx, ctx.seed + off + 1, 40 * scale, panics=0, dfs=100, max_nodes=10)
+    s2, c2 = tree_stream(ctx, ctx.seed + off + 1, 80 * scale, panics=0, dfs=100, max_nodes=10)
     cs = corpus_cases(ctx, "solve") if off == 0 else []
     return [s1, s2], cs + c1 + c2
 
@@ -957,8 +957,8 @@ def spec_c17(c):
 
 
 def streams_c17(ctx, scale, off):
-    s1, c1 = solve_stream(ctx, ctx.seed + off, 110 * scale, rooms=0, scheds=2, c17=1, max_c=5, max_p=7)
-    s2, c2 = node_stream(ctx, ctx.seed + off + 1, 160 * scale, rooms=1, max_c=9, max_p=10)
+    s1, c1 = solve_stream(ctx, ctx.seed + off, 150 * scale, rooms=0, scheds=2, c17=1, max_c=5, max_p=7)
+    s2, c2 = node_stream(ctx, ctx.seed + off + 1, 240 * scale, rooms=1, max_c=9, max_p=10)
     return [s1, s2], c1 + c2
 
 
@@ -1472,8 +1472,8 @@ def streams_none(ctx, scale, off):
 
 def streams_node_solve(rooms):
     def f(ctx, scale, off):
-        s1, c1 = node_stream(ctx, ctx.seed + off, 250 * scale, rooms=rooms, max_c=(9 if rooms == 1 else 6))
-        s2, c2 = solve_stream(ctx, ctx.seed + off + 1, 120 * scale, rooms=rooms)
+        s1, c1 = node_stream(ctx, ctx.seed + off, 400 * scale, rooms=rooms, max_c=(9 if rooms == 1 else 6))
+        s2, c2 = solve_stream(ctx, ctx.seed + off + 1, 180 * scale, rooms=rooms)
         cs = corpus_cases(ctx, "solve") if off == 0 else []      # minimised inputs of earlier findings run first (corpus/<id>_solve.json)
         s3, c3 = gate_stream(ctx, ctx.seed + off + 7, 300 * scale)   # the room stage alone at realistic sizes (fixed / enforced courses in conflicts)
         return [s1, s2, s3], cs + c1 + c2 + c3
@@ -1488,8 +1488,8 @@ def streams_c10(ctx, scale, off):
 
 def streams_solver_tie(ctx, scale, off):
     """C05 / C11 are stated for hard-feasible assignments: the tie of the solver to its model (C01) is part of what they rest on"""
-    s1, c1 = node_stream(ctx, ctx.seed + off + 21, 150 * scale, rooms=2)
-    s2, c2 = solve_stream(ctx, ctx.seed + off + 22, 60 * scale, rooms=2)
+    s1, c1 = node_stream(ctx, ctx.seed + off + 21, 250 * scale, rooms=2)
+    s2, c2 = solve_stream(ctx, ctx.seed + off + 22, 100 * scale, rooms=2)
     s3, c3 = gate_stream(ctx, ctx.seed + off + 23, 300 * scale)
     return [s1, s2, s3], c1 + c2 + c3
 
@@ -1510,7 +1510,7 @@ def streams_c08(ctx, scale, off):
 
 def streams_tree(panics):
     def f(ctx, scale, off):
-        s1, c1 = tree_stream(ctx, ctx.seed + off, 80 * scale, panics=panics, dfs=150, max_nodes=12)
+        s1, c1 = tree_stream(ctx, ctx.seed + off, 140 * scale, panics=panics, dfs=150, max_nodes=12)
         return [s1], c1
     return f
 
